@@ -187,20 +187,23 @@ Proof.
 Qed.
 Print Assumptions C15_accepted_mesh_well_shaped.
 
-(* No check ties face_face_connectivity to the face dimension: a mesh is accepted whose
-   cell connectivity has another number of rows than there are faces ... *)
-Theorem C15_cell_connectivity_rows_refuted :
-  exists m n e s c, parse_mesh m = Ok (Some [n; e; Some s]) /\ ls_cc s = Some c /\ fst (fst c) <> ls_axis s.
-Proof. exact cc_rows_refuted. Qed.
-Print Assumptions C15_cell_connectivity_rows_refuted.
-
-(* ... and under the guard that the variable spans the face dimension it has one row per face. *)
+(* The cell connectivity construct, when the reader creates one (handoff/C15-fix3-1.diff: only
+   from a 2-d face_face_connectivity variable whose cell dimension is the mesh's face
+   dimension), has one row per face - no guard.  Refuted.v has the witness for the code
+   before that repair, which built a construct from a variable on any dimension. *)
 Theorem C15_cell_connectivity_rows :
-  forall m s c ff i dims d,
-  summarise m Face = Ok (Some s) -> ls_cc s = Some c ->
-  assoc "face_face_connectivity"%string (mm_attrs m) = Some ff ->
-  var_dims m ff = Some dims -> cell_dimension m "face" ff = Ok i -> nth_error dims i = Some d ->
-  loc_dim m Face = Ok (Some d) ->
-  fst (fst c) = ls_axis s.
-Proof. exact cc_rows_guarded. Qed.
+  forall m s c, summarise m Face = Ok (Some s) -> ls_cc s = Some c -> fst (fst c) = ls_axis s.
+Proof. exact cc_rows. Qed.
 Print Assumptions C15_cell_connectivity_rows.
+
+(* A data variable is given the constructs of a location only if it spans the location's
+   dimension (Mesh.attach; otherwise the mesh is reported and ignored for it): the domain
+   topology, the cell connectivity and the bounds it receives have exactly as many rows as
+   the variable's own cell dimension has elements. *)
+Theorem C15_field_axis_rows :
+  forall m l s s' dd, summarise m l = Ok (Some s) -> attach s dd = Some s' ->
+  fst (fst (ls_dt s')) = dim_size m dd /\
+  (forall c, ls_cc s' = Some c -> l = Face -> fst (fst c) = dim_size m dd) /\
+  (forall b, ls_bounds s' = Some b -> fst (fst b) = dim_size m dd).
+Proof. exact attach_rows. Qed.
+Print Assumptions C15_field_axis_rows.
